@@ -6,7 +6,7 @@
 From Coq Require Import List String Ascii Bool ZArith Arith.
 From SFC.Base Require Import Res Str.
 From SFC.Gen Require Import Fx Zone.
-From SFC.GenMain Require Import Program Classes Main.
+From SFC.GenMain2 Require Import Program Classes Main.
 Import ListNotations.
 Local Open Scope string_scope.
 
